@@ -198,7 +198,7 @@ func main() {
 	}
 	nfrom := 1500
 	if *tier == "thorough" {
-		nfrom = 50000
+		nfrom = 30000
 	}
 	for i := 0; i < nfrom; i++ {
 		us := rng.Int63() - (1 << 62)
